@@ -177,3 +177,7 @@ def run(chk, repo):
     chk.ob('C19.f', f"numeric options {sorted(numeric)} are compared, not truth-tested", ff.where, bool(numeric) and not offenders,
            f"numeric option used as a boolean at {offenders}: the value 0 (e.g. --quant-cutoff 0) silently switches the filter off, so a stricter cutoff keeps more",
            key=ff.qual + '::numeric-truthiness', fn=ff.qual)
+    # ------------------------------------------------------------------ shared: option plumbing by name
+    from rules.shared import optname
+    chk.clauses.append('C19.h (shared R-THREAD) an option value bound to a name that is itself a CLI option carries that very option')
+    optname(chk, repo, 'C19.h', ['cli.filter_fasta'], floor=0)
